@@ -672,6 +672,28 @@ def external_measure_cases(rng, n):
     return out
 
 
+def indexed_contiguous_cases(rng, n):
+    """indexed contiguous ragged fields (stations x profiles x elements): equal or different count variables,
+    equal or different index variables, equal or different station coordinates (/repo commit 48e1fc0: a count
+    variable is shared only together with its index variable).  Oracle only."""
+    out = []
+    for j in range(n):
+        k = rng.choice([2, 3])
+        ct0, i0, at0 = rng.choice([0, 1]), rng.choice([0, 1, 2]), tok(20, rng.choice([0, 1]))
+        fields = []
+        for i in range(k):
+            sk = F(86000 + 10 * j + i, [2, 2, 3], dim=[None, None, None],
+                   aux=[{"ax": [0], "t": at0 if rng.random() < 0.6 else tok(21, rng.choice([0, 1])), "b": None}])
+            sk["cmp"] = {"kind": "idxcont", "t": ct0 if rng.random() < 0.8 else 1 - ct0,
+                         "i": i0 if rng.random() < 0.4 else rng.choice([0, 1, 2])}
+            sk["extm"] = False
+            sk["nomodel"] = True
+            fields.append(sk)
+        out.append({"fields": fields, "orders": [list(q) for q in itertools.permutations(range(k))],
+                    "fam": "indexed-contiguous"})
+    return out
+
+
 def geometry_cases():
     """example field 6 (geometry: node count, part node count, interior ring) against variants with the same
     counts and other node coordinates / other instance-level coordinates / other interior rings (equal
@@ -762,6 +784,7 @@ def run(chk, model_ok):
     cases = corpus() + compressed_corpus() + example_cases(rng, thorough) + geometry_cases() + \
         gathered_constructs_family(rng, 400 if thorough else 24) + \
         external_measure_cases(random.Random(rng.random()), 60 if thorough else 6) + \
+        indexed_contiguous_cases(random.Random(rng.random()), 100 if thorough else 8) + \
         bounds_family(rng, 400 if thorough else 24) + compressed_family(rng, 500 if thorough else 36)
     fid = 100
     for n in range(ncases):
@@ -800,7 +823,7 @@ def run(chk, model_ok):
         sks = c["fields"]
         stats["families"][c["fam"]] = stats["families"].get(c["fam"], 0) + 1
         stats["sizes"][len(sks)] = stats["sizes"].get(len(sks), 0) + 1
-        isex = any(sk.get("ex") is not None or sk.get("extm") for sk in sks)
+        isex = any(sk.get("ex") is not None or sk.get("extm") or sk.get("nomodel") for sk in sks)
         iscmp = any(sk.get("cmp") is not None or sk.get("gfam") for sk in sks)
         for sk in sks:
             if sk.get("ex") is not None:
